@@ -40,7 +40,7 @@ func c03Spelling(which int, a, b string) (attr string, short, long, refinement a
 		attr = "build"
 		short = "/ctx/" + a
 		long = map[string]any{"context": "/ctx/" + a}
-		refinement = map[string]any{"args": map[string]any{"A": "1"}, "target": "t" + b}
+		refinement = map[string]any{"args": map[string]any{"A": "1"}, "target": "t" + b, "dockerfile": "Dockerfile.prod"}
 	case 6:
 		attr = "environment"
 		short = []any{"A=" + a, "EMPTY="}
@@ -70,8 +70,8 @@ func c03Spelling(which int, a, b string) (attr string, short, long, refinement a
 		refinement = map[string]any{"z": "z"}
 	case 11:
 		attr = "extra_hosts"
-		short = []any{"ha=10.0.0.1", "hb:10.0.0.2", "x-h=10.0.0.4"}
-		long = map[string]any{"ha": "10.0.0.1", "hb": "10.0.0.2", "x-h": "10.0.0.4"}
+		short = []any{"ha=10.0.0.1", "hb:10.0.0.2", "x-h=10.0.0.4", "h6=[::1]"}
+		long = map[string]any{"ha": "10.0.0.1", "hb": "10.0.0.2", "x-h": "10.0.0.4", "h6": "[::1]"}
 		refinement = map[string]any{"hz": "10.0.0.3"}
 	case 12:
 		attr = "sysctls"
